@@ -270,6 +270,12 @@ def gen_op(rng, w):
     if r < 0.71 and dense:
         t = rng.choice(dense)
         tc = w.objs[w.names[t][0]]['M'].tc
+        M_ = w.objs[w.names[t][0]]['M']
+        if rng.random() < 0.2 and M_.m * M_.n > 1 and M_.m * M_.n <= 64:
+            # a matrix operand: another matrix of the same shape, or the owner itself
+            if rng.random() < 0.4:
+                return ['iop', t, rng.choice(['+=', '-=']), {'k': 'self'}]
+            return ['iop', t, rng.choice(['+=', '-=']), DNS.gen_dense(rng, M_.m, M_.n, tc)]
         if tc != 'i' and rng.random() < 0.3:
             return ['iop', t, '/=', {'k': 'num', 'v': rng.choice([2.0, -2.0, 0.5, 4.0, -1.0])}]      # exactly invertible divisors
         if rng.random() < 0.1:
@@ -537,9 +543,14 @@ def apply(op, w, stats, rngless=None):
             return all(p_ == p_ and abs(p_) <= 1e6 and float(p_) == int(p_) for p_ in parts)
         if not all(plain(v) for v in M.v):
             return      # special values only travel; arithmetic on nan/inf/2^62 is not this engine's subject
-        v = DNS.lit(op[3]['v'])
+        if op[3]['k'] == 'self':
+            v, vm = X, M.copy()            # A op= A: the operand is the owner itself
+        elif op[3]['k'] == 'dense':
+            v, vm = SPS.mk(op[3]), DNS.model_of(op[3])
+        else:
+            v = vm = DNS.lit(op[3]['v'])
         try:
-            MDL.inplace(M, op[2], v)
+            MDL.inplace(M, op[2], vm)
         except MDL.Refuse:
             return
         X_before = X
